@@ -12,6 +12,7 @@ import (
 	"sync"
 	"sync/atomic"
 	"testing"
+	"time"
 
 	"github.com/centrifugal/centrifuge"
 	"github.com/centrifugal/centrifuge/internal/bpool"
@@ -46,13 +47,13 @@ var dirtyBytes = func() []byte {
 func pickLen(r *kit.Rand, maxPow int, allowNonPositive bool) int {
 	max := 1 << maxPow
 	switch x := r.Intn(100); {
-	case x < 62: // small powers
+	case x < 55: // small powers
 		k := r.Intn(min(maxPow, 9) + 1)
 		return clampLow((1<<k)+r.Range(-1, 1), allowNonPositive)
-	case x < 74: // any power
+	case x < 70: // any power
 		k := r.Intn(maxPow + 1)
 		return clampLow((1<<k)+r.Range(-1, 1), allowNonPositive)
-	case x < 79: // the maximum and just beyond
+	case x < 78: // the maximum and just beyond
 		return max + r.Range(-2, 3)
 	case x < 80:
 		return max + r.Range(4, max/2)
@@ -107,7 +108,24 @@ const totalOps = 4000
 
 const classStaleBeyond = "itembuf-stale-items-beyond-len-survive-put"
 
+// big allocations (and freeing them) are very expensive under the race detector (shadow memory is
+// remapped), so each goroutine gets a budget of them per case; beyond it lengths are redrawn small.
+const bigBytes = 16 << 10
+
+func (w *worker) length(maxPow int, allowNonPositive bool, elemSize int) int {
+	n := pickLen(w.r, maxPow, allowNonPositive)
+	if n*elemSize > bigBytes {
+		if w.big <= 0 {
+			return w.r.Range(1, bigBytes/elemSize)
+		}
+		w.big--
+		w.s.count("big_allocation_requests", 1)
+	}
+	return n
+}
+
 type worker struct {
+	big      int
 	s        *caseState
 	r        *kit.Rand
 	id       int
@@ -136,7 +154,7 @@ func (w *worker) detail(extra map[string]any) map[string]any {
 // ---- byte buffers ----
 
 func (w *worker) getBB() {
-	n := pickLen(w.r, 18, false)
+	n := w.length(18, false, 1)
 	bb := bpool.GetByteBuffer(n)
 	w.log("GetByteBuffer(%d) -> len %d cap %d", n, len(bb.B), cap(bb.B))
 	w.s.count("bytebuffer_get", 1)
@@ -170,11 +188,11 @@ func (w *worker) putBB() {
 	if len(w.bbs) == 0 || mode >= 8 {
 		// foreign buffer of arbitrary capacity and length
 		c := r.Range(0, 300)
-		switch r.Intn(6) {
+		switch r.Intn(8) {
 		case 0:
-			c = pickLen(r, 18, false)
+			c = w.length(18, false, 1)
 		case 1:
-			c = r.Range(1, 70000)
+			c = r.Range(1, 9000)
 		}
 		l := r.Intn(c + 1)
 		bb = &bpool.ByteBuffer{B: make([]byte, l, c)}
@@ -189,12 +207,11 @@ func (w *worker) putBB() {
 		switch {
 		case mode < 3: // as is (dirty, non-empty)
 		case mode < 5: // grown beyond capacity
-			extra := cap(bb.B) - len(bb.B) + r.Range(1, 100)
-			if cap(bb.B) > 70000 {
-				extra = cap(bb.B) - len(bb.B) + 1
+			if cap(bb.B) <= bigBytes {
+				extra := cap(bb.B) - len(bb.B) + r.Range(1, 100)
+				bb.B = append(bb.B, dirtyBytes[:extra]...)
+				w.s.count("bytebuffer_put_grown", 1)
 			}
-			bb.B = append(bb.B, dirtyBytes[:extra]...)
-			w.s.count("bytebuffer_put_grown", 1)
 		case mode < 6: // filled to capacity
 			bb.B = bb.B[:cap(bb.B)]
 			if len(bb.B) > 0 {
@@ -214,7 +231,7 @@ func (w *worker) putBB() {
 // ---- byte slice lists ----
 
 func (w *worker) getBS() {
-	n := pickLen(w.r, 12, true)
+	n := w.length(12, true, 24)
 	b := bpool.GetByteSlicesBuf(n)
 	w.log("GetByteSlicesBuf(%d) -> len %d cap %d", n, len(b.B), cap(b.B))
 	w.s.count("byteslices_get", 1)
@@ -256,7 +273,7 @@ func (w *worker) putBS() {
 	if len(w.bss) == 0 || mode >= 8 {
 		c := r.Range(0, 200)
 		if r.Chance(1, 5) {
-			c = max(pickLen(r, 12, false), 0)
+			c = max(w.length(12, false, 24), 0)
 		}
 		l := r.Intn(c + 1)
 		b = &bpool.ByteSlicesBuf{B: make([][]byte, l, c)}
@@ -273,11 +290,13 @@ func (w *worker) putBS() {
 		switch {
 		case mode < 3:
 		case mode < 5:
-			extra := cap(b.B) - len(b.B) + r.Range(1, 50)
-			for j := 0; j < extra; j++ {
-				b.B = append(b.B, payload)
+			if cap(b.B)*24 <= bigBytes {
+				extra := cap(b.B) - len(b.B) + r.Range(1, 50)
+				for j := 0; j < extra; j++ {
+					b.B = append(b.B, payload)
+				}
+				w.s.count("byteslices_put_grown", 1)
 			}
-			w.s.count("byteslices_put_grown", 1)
 		case mode < 6:
 			b.B = b.B[:cap(b.B)]
 			for j := range b.B {
@@ -297,7 +316,7 @@ func (w *worker) putBS() {
 // ---- item buffers ----
 
 func (w *worker) getIB() {
-	n := pickLen(w.r, 12, true)
+	n := w.length(12, true, 64)
 	h := centrifuge.VerifGetItemBuf(n)
 	items := h.Items()
 	w.log("getItemBuf(%d) -> len %d cap %d", n, len(items), cap(items))
@@ -364,7 +383,7 @@ func (w *worker) putIB() {
 	if len(w.ibs) == 0 || mode >= 8 {
 		c := r.Range(0, 200)
 		if r.Chance(1, 5) {
-			c = max(pickLen(r, 12, false), 0)
+			c = max(w.length(12, false, 64), 0)
 		}
 		l := c
 		if w.shortPut {
@@ -388,12 +407,14 @@ func (w *worker) putIB() {
 		switch {
 		case mode < 3: // as the writer does: B keeps the len it was handed out with
 		case mode < 5: // grown
-			extra := cap(items) - len(items) + r.Range(1, 50)
-			for j := 0; j < extra; j++ {
-				items = append(items, queue.Item{Data: payload, Channel: markWithin, Key: "grown"})
+			if cap(items)*64 <= bigBytes {
+				extra := cap(items) - len(items) + r.Range(1, 50)
+				for j := 0; j < extra; j++ {
+					items = append(items, queue.Item{Data: payload, Channel: markWithin, Key: "grown"})
+				}
+				h.SetItems(items)
+				w.s.count("itembuf_put_grown", 1)
 			}
-			h.SetItems(items)
-			w.s.count("itembuf_put_grown", 1)
 		case mode < 6: // extended to capacity and filled
 			items = items[:cap(items)]
 			dirty(items, markWithin, "full")
@@ -462,7 +483,7 @@ func runCase(c *kit.Case) {
 	var wg sync.WaitGroup
 	workers := make([]*worker, g)
 	for i := range workers {
-		workers[i] = &worker{s: s, id: i, shortPut: shortPut, r: kit.NewRand(c.R.Uint64(), uint64(i))}
+		workers[i] = &worker{big: max(1, 32/g), s: s, id: i, shortPut: shortPut, r: kit.NewRand(c.R.Uint64(), uint64(i))}
 	}
 	for _, w := range workers {
 		wg.Add(1)
@@ -506,7 +527,7 @@ func TestC42(t *testing.T) {
 	kit.Main(t, kit.Spec{
 		ID:    "C42",
 		Level: "exploration",
-		Rule: "one case = 1..32 goroutines (4000 operations in total) doing random get/put on the three process-wide pool families, each goroutine holding up to 12 buffers per family: bpool.GetByteBuffer (lengths 2^k-1,2^k,2^k+1 for k<=18, 262144+-2, above the maximum, 0), bpool.GetByteSlicesBuf and the writer's getItemBuf (k<=12, 4096+-2, above, 0 and negative lengths). Before a put the buffer is used/dirtied and, at random: left as is, grown past its capacity by append, extended to capacity and filled, resliced shorter, set to nil; 20% of puts are foreign buffers with arbitrary capacity (0..300, around powers of two, up to 70000) and length. " +
+		Rule: "one case = 1..32 goroutines (4000 operations in total) doing random get/put on the three process-wide pool families, each goroutine holding up to 12 buffers per family and allowed 32/goroutines requests above 16 KiB (large allocations are slow under the race detector; further draws are redrawn below 16 KiB): bpool.GetByteBuffer (lengths 2^k-1,2^k,2^k+1 for k<=18, 262144+-2, above the maximum, 0), bpool.GetByteSlicesBuf and the writer's getItemBuf (k<=12, 4096+-2, above, 0 and negative lengths). Before a put the buffer is used/dirtied and, at random: left as is, grown past its capacity by append, extended to capacity and filled, resliced shorter, set to nil; 20% of puts are foreign buffers with arbitrary capacity (0..300, around powers of two, up to 9000) and length. " +
 			fmt.Sprintf("Item buffers are returned with a len shorter than the dirtied region only in cases [0,%d). ", shortPutZone) +
 			"Oracle at every get: byte buffer and byte-slice list have len 0 and cap >= requested; item buffer has cap >= requested, len >= requested and every element of B equal to the zero Item. Built with -race. evaluations = gets checked. Non-trivial = every case (signature: goroutine count, which paths occurred: recycled foreign capacity handed out, above-maximum requests, short puts).",
 		Assumptions: []string{
@@ -515,8 +536,9 @@ func TestC42(t *testing.T) {
 			"for item buffers (getItemBuf returns len == requested) 'empty' means every element of B is the zero value",
 			"sync.Pool may drop buffers at any time (and drops a quarter of the puts under -race), so reuse is probabilistic; itembuf/bytebuffer *_recycled counters show that reuse happened",
 		},
-		Cases:           map[string]int{"quick": 1600, "thorough": 24000},
+		Cases:           map[string]int{"quick": 480, "thorough": 7200},
 		RequireCounters: []string{"bytebuffer_get", "byteslices_get", "itembuf_get", "bytebuffer_put_foreign", "byteslices_put_foreign", "itembuf_put_foreign", "bytebuffer_put_grown", "byteslices_put_grown", "itembuf_put_grown", "bytebuffer_get_returned_recycled_foreign_capacity", "bytebuffer_get_above_max", "byteslices_get_above_max", "itembuf_get_above_max", "itembuf_get_non_positive_length", "byteslices_get_non_positive_length", "itembuf_put_with_dirty_elements_beyond_len", "itembuf_elements_checked_zero"},
+		CaseTimeout:     10 * time.Minute,
 		Run:             runCase,
 	})
 }
